@@ -23,15 +23,16 @@ HARNESS_HEAD = '''/* GENERATED harness: one entry per (operator token, arity the
 #include PML_EXTRACTED
 #include "pml_spec.h"
 int nondet_int(void);
-int wit_v1, wit_v2; /* witness copies for the trace */
+int wit_v1, wit_v2, wit_k1, wit_k2; /* witness copies for the trace */
 '''
 
 HARNESS_ARM = '''
 void h_arm_%(tok)s_%(n)d(void) {
   int v1 = nondet_int(), v2 = nondet_int();
-  wit_v1 = v1; wit_v2 = v2;
+  int k1 = nondet_int(), k2 = nondet_int(); /* kinds of the operand nodes: any expression */
+  wit_v1 = v1; wit_v2 = v2; wit_k1 = k1; wit_k2 = k2;
   verif_thrown = 0; verif_fell = 0;
-  int r = arm_%(tok)s(%(n)d, %(tok)s, v1, v2);
+  int r = arm_%(tok)s(%(n)d, %(tok)s, v1, v2, k1, k2);
   __CPROVER_assert(0, "CANARY returns");
   int fault = spec_fault(%(tok)s, %(n)d, v1, v2);
   __CPROVER_assert(!verif_fell, "O_value: the arm yields a value (does not fall out of the switch)");
@@ -52,6 +53,9 @@ def gen_harness(ext, path):
         for n in a['grammar_arities'] or [2]:
             parts.append(HARNESS_ARM % {'tok': a['token'], 'n': n, 'sym': SYM.get(a['token'], '?')})
             entries.append(('h_arm_%s_%d' % (a['token'], n), a['token'], n))
+    parts.append('\nvoid h_dataToBool(void) {\n  int v = nondet_int();\n  wit_v1 = v; wit_v2 = 0;\n  bool b = pml_dataToBool(v);\n'
+                 '  __CPROVER_assert(0, "CANARY returns");\n'
+                 '  __CPROVER_assert(b == (v != 0), "O_value: dataToBool of an integer-valued operand is true exactly for non-zero values (C truth value)");\n}\n')
     parts.append('\nvoid h_arms_present(void) {\n  __CPROVER_assert(0, "CANARY returns");\n')
     for t in pml_extract.OPS:
         parts.append('  __CPROVER_assert(%d, "O_present: evaluateExpr has an arm for operator token %s (\'%s\') - otherwise a well-typed expression is rejected as not implemented");\n'
@@ -211,6 +215,8 @@ def run(tier):
     open(cpath, 'w').write(ext['c'])
     hpath = os.path.join(wd, 'harness_pml.c')
     entries = gen_harness(ext, hpath)
+    part.functions.append({'function': 'PromelaDataModel::dataToBool (integer-valued operands)', 'file': '%s:%d-%d' % ((pml_extract.SRC,) + tuple(ext['dataToBool_lines'])),
+                           'route': 'R3 extract -> pml_dataToBool in work/pml/pml_extracted.c', 'dropped': 'tests on the string representation (empty atom, VERBATIM, "true"/"false") resolved by the integer-operand assumption'})
     for a in ext['arms']:
         part.functions.append({'function': 'PromelaDataModel::evaluateExpr arm %s' % a['token'], 'file': '%s:%d' % (pml_extract.SRC, a['line']),
                                'route': 'R3 extract -> arm_%s in work/pml/pml_extracted.c' % a['token'],
@@ -219,7 +225,7 @@ def run(tier):
     part.extra['operator_tokens_without_arm'] = ext['missing']
     part.extra['static_fact_unsequenced'] = unsequenced_fact()
     jobs = []
-    for h, tok, n in entries + [('h_arms_present', None, None)]:
+    for h, tok, n in entries + [('h_arms_present', None, None), ('h_dataToBool', 'PML_NEG', 1)]:
         jobs.append(cbmcrun.Job(h, [hpath], h, wd, dfcc=False, includes=[HERE, wd],
                                 defines={'PML_EXTRACTED': '"%s"' % cpath},
                                 checks=['--bounds-check', '--pointer-check', '--div-by-zero-check',
